@@ -124,7 +124,25 @@ fn exec_argv(toks: &[String], rng: &mut Rng) -> Vec<String> {
     out
 }
 
+/// find's own output and the output of the commands it runs go to the same standard output: what an earlier
+/// action of the same entry wrote (also without a newline) comes before what the command writes
+fn exec_order(ctx: &Ctx, sink: &mut Sink) {
+    for (k, plus) in [(3usize, false), (1, false), (6, false)] {
+        let dir = ctx.scratch("order");
+        std::fs::create_dir(dir.join("d")).unwrap();
+        for i in 0..k { std::fs::write(dir.join("d").join(format!("f{i}")), b"").unwrap(); }
+        let mut cmd = std::process::Command::new(ctx.bin("find"));
+        cmd.args(["d", "-sorted", "-type", "f", "-printf", "A:%f ", "-exec", "echo", "B", "{}", if plus { "+" } else { ";" }]);
+        cmd.current_dir(&dir).stdin(std::process::Stdio::null()).stderr(std::process::Stdio::null());
+        let o = cmd.output().expect("run find");
+        let imp = format!("st={} out={}", o.status.code().unwrap_or(999), if o.stdout.is_empty() { "-".to_string() } else { hex(&o.stdout) });
+        sink.push(Case { req: format!("exec-order {k}"), imp, tags: vec!["single", "output-order", "binary", "nt"] });
+        let _ = std::fs::remove_dir_all(&dir);
+    }
+}
+
 pub fn run_c09(ctx: &Ctx, sink: &mut Sink) {
+    exec_order(ctx, sink);
     let mut rng = Rng::new(ctx.seed).fork(9);
     let rec = ctx.recorder().as_os_str().as_bytes().to_vec();
     // the starting point "/" (no parent directory, no file name)
